@@ -3,6 +3,7 @@
 # Must not run while anything else uses /repo.
 TIER=${1:-quick}
 cd /verif
+EVBAK=$(mktemp -d); cp evidence/*.json $EVBAK/   # evidence written while a seeded change is applied is not evidence
 git -C /repo status --short | grep -q . && { echo "repo dirty"; exit 2; }
 for d in seeded/*/; do
   name=$(basename $d)
@@ -15,4 +16,5 @@ for d in seeded/*/; do
   echo "$name: exit=$rc $( [ $rc -eq 1 ] && echo CAUGHT/$kind || echo MISSED ) :: $first"
 done
 (cd harness && /venv/bin/python extract.py >/dev/null)
+cp $EVBAK/*.json evidence/; rm -rf $EVBAK
 echo MATRIX-DONE
